@@ -310,6 +310,7 @@ def translate_sync():
     n = norm(body)
     for pat, what in [(r'if pending\.insert\(block\.digest\(\)\) \{', "`if pending.insert(block.digest())`"),
                       (r'if !requests\.contains_key\(&parent\) ?\{', "`if !requests.contains_key(&parent)`"),
+                      (r'let fut = Self::waiter\(store_copy\.clone\(\), parent\.clone\(\), block\); waiting\.push\(fut\); if !requests\.contains_key\(&parent\) ?\{', "a waiter for EVERY suspended block, pushed before the `requests` test"),
                       (r'requests\.insert\(parent\.clone\(\), now\);', "`requests.insert(parent.clone(), now)`"),
                       (r'let address = committee \.address\(&author\)', "first request addressed to the block's author"),
                       (r'network\.send\(address, Bytes::from\(message\)\)\.await;', "`network.send(address, …)`"),
